@@ -424,6 +424,32 @@ def rule_funcargs(chk, facts, rule='C08-R7'):
                    'bounded' if okl and okh else
                    '%s is used as %s without a test against %s: a negative position reads before the string buffer'
                    % (show(o), 'subscript' if n[0] == 'i' else 'pointer offset', 'a lower bound' if not okl else 'the length'))
+        # a position or length derived from an argument must not pass through a narrower integer type before
+        # it has been bounded: the truncated value can satisfy every later test
+        for b, i, ln, n in f.nodes():
+            if not (is_assign(n) and n[1] == '=' and strip(n[2])[0] == 'l'):
+                continue
+            r = n[3]
+            while isinstance(r, (list, tuple)) and r and r[0] in ('ref', 'cf'):
+                r = r[1]
+            if not (r[0] == 'cast' and isinstance(r[2], int) and isinstance(r[3], int) and abs(r[2]) < abs(r[3]) and r[1] in ('i', 'e')):
+                continue
+            srcs = [nocast(m) for m in walk(r[4]) if isinstance(m, (list, tuple)) and m and
+                    ((m[0] == 'm' and is_argint(nocast(m))) or (m[0] == 'l' and tuple(m) in derived))]
+            if not srcs:
+                continue
+            n_ += 1
+            # tolerated when every source is bounded on both sides at this point
+            def both(o):
+                lo_ = f.guarded(b, i, lambda l: edge_has_atom(l, lambda a: a[0] == 'cmp' and a[2] == o and a[1] in ('>=', '>')))[0]
+                hi_ = f.guarded(b, i, lambda l: edge_has_atom(l, lambda a: a[0] == 'cmp' and a[2] == o and a[1] in ('<=', '<')))[0]
+                return lo_ and hi_
+            ok = all(both(o) for o in srcs)
+            chk.ob(rule, 'function.c:%s:narrow:%s' % (f.name, show(strip(n[2]))), ok, f.loc(ln),
+                   'sources bounded before the conversion' if ok else
+                   '%s receives a value computed from an argument after conversion from %d to %d bits, before the argument '
+                   'was bounded: a position such as 4294967296 wraps to a small value and passes the later tests' %
+                   (show(strip(n[2])), abs(r[3]), abs(r[2])))
     if not n_:
         raise AnalysisBroken('no integer-argument offsets found in function.c')
 
